@@ -2,6 +2,7 @@ package main
 
 import (
 	"fmt"
+	"go/constant"
 	"go/types"
 	"math/big"
 	"strings"
@@ -139,6 +140,12 @@ func (x *Exec) call(st *State, res *ssa.Call, c *ssa.CallCommon, in ssa.Instruct
 	if fn.Name() == "ssa:deferstack" || strings.HasPrefix(fn.Name(), "ssa:") {
 		setRes(st, Val{S: "anil", Sort: "Addr", T: nil})
 		return nil, false
+	}
+	if fn.String() == "fmt.Sprintf" {
+		if v, ok := x.sprintf(st, c, args); ok {
+			setRes(st, v)
+			return nil, false
+		}
 	}
 	fc := x.w.contractFor(fn)
 	if fc != nil && !fc.Inline {
@@ -931,4 +938,69 @@ func (x *Exec) applyPure(env *Env, f Val, args []Val) Val {
 		out = site(sand(rets[i].st.pc...), rets[i].res[0].S, out)
 	}
 	return Val{S: out, Sort: rs, T: rt}
+}
+
+// sprintf models fmt.Sprintf for a constant format made of literal text, %d (integers), %s / %v (strings) and %%.
+// Anything else yields an arbitrary string (sound over-approximation).
+func (x *Exec) sprintf(st *State, c *ssa.CallCommon, args []Val) (Val, bool) {
+	fc, ok := c.Args[0].(*ssa.Const)
+	if !ok || fc.Value == nil {
+		return Val{}, false
+	}
+	format := constantString(fc)
+	var pieces []string
+	lit := ""
+	argi := 0
+	flush := func() {
+		if lit != "" {
+			pieces = append(pieces, x.w.strLit(lit))
+			lit = ""
+		}
+	}
+	_, ifcur := x.w.comp(st, "Iface")
+	for i := 0; i < len(format); i++ {
+		ch := format[i]
+		if ch != '%' {
+			lit += string(ch)
+			continue
+		}
+		if i+1 >= len(format) {
+			return Val{}, false
+		}
+		i++
+		verb := format[i]
+		if verb == '%' {
+			lit += "%"
+			continue
+		}
+		flush()
+		elem := app("select", ifcur, app("selem", args[1].S, fmt.Sprint(argi)))
+		argi++
+		switch verb {
+		case 'd':
+			pieces = append(pieces, app("itoa", app("ival", elem)))
+		case 's', 'v':
+			_, scur := x.w.comp(st, "Str")
+			// a string argument is boxed in a fresh cell; other dynamic types render to an unknown string
+			str := x.g.fresh("fmtarg", "Str")
+			st.assume(app(">=", app("len", str), "0"))
+			st.assume(app("=>", app("=", app("tid", elem), fmt.Sprint(x.w.typeID(types.Typ[types.String]))), app("=", str, app("select", scur, app("iref", elem)))))
+			pieces = append(pieces, str)
+		default:
+			return Val{}, false
+		}
+	}
+	flush()
+	if len(pieces) == 0 {
+		return Val{S: x.w.strLit(""), Sort: "Str", T: types.Typ[types.String]}, true
+	}
+	out := pieces[0]
+	for _, p := range pieces[1:] {
+		out = app("cat", out, p)
+	}
+	return Val{S: out, Sort: "Str", T: types.Typ[types.String]}, true
+}
+
+func constantString(c *ssa.Const) string {
+	return constant.StringVal(c.Value)
 }
